@@ -254,7 +254,11 @@ func genC13(t *rapid.T) c13Case {
 			}
 			for k := 0; k < extra && len(qs) > 0; k++ {
 				src := qs[rapid.IntRange(0, len(qs)-1).Draw(t, "dupOf")]
-				vc.Msa.Rows = append(vc.Msa.Rows, FaRec{ID: fmt.Sprintf("dup%d", k), Seq: src.Seq})
+				id := fmt.Sprintf("dup%d", k)
+				if rapid.IntRange(0, 3).Draw(t, "sameNameAgain") == 0 {
+					id = src.ID // the same sequence under the same name a second time (files get concatenated): still one more sequence
+				}
+				vc.Msa.Rows = append(vc.Msa.Rows, FaRec{ID: id, Seq: src.Seq})
 			}
 			n = len(vc.Msa.queries())
 		} else {
